@@ -99,6 +99,21 @@ def gen(rng, tier):
             except (iu.Refused, UnicodeEncodeError):
                 continue
             cases.append({'kind': 'msg', 'cfg': None, 'codec': codec, 'hex': False, 'bytes': b.hex(), 'mut': 'de43-stress'})
+    # chip data (DE55) that ends early in every way: after a one- or two-byte tag, after a length byte of every kind
+    # (short form, the BER long-form markers 0x81..0x84, 0x80, 0xff) followed by 0..3 more bytes
+    for codec in ('latin_1', 'cp500'):
+        shapes = []
+        for tag in (b'\x82', b'\x9f\x10', b'\x5f\x2a', b'\x9f'):
+            for ln in (b'', b'\x00', b'\x01', b'\x02', b'\x7f', b'\x80', b'\x81', b'\x82', b'\x83', b'\x84', b'\xff'):
+                for more in (b'', b'\x01', b'\x01\x02', b'\x01\x02\x03'):
+                    shapes.append(tag + ln + more)
+        if tier == 'quick':
+            shapes = rng.sample(shapes, 70) + [b'\x9f\x10\x82\x01', b'\x82\x82\x01', b'\x9f\x10\x81']
+        for icc in shapes:
+            for pre in (b'', b'\x9a\x03\x21\x01\x02'):
+                body = pre + icc
+                b = '1240'.encode(codec) + bytes.fromhex('80000000000002000000000000000000') + ('%03d' % len(body)).encode(codec) + body
+                cases.append({'kind': 'msg', 'cfg': None, 'codec': codec, 'hex': False, 'bytes': b.hex(), 'mut': 'icc-length-shapes'})
     # the same raw text under several configurations after earlier calls in the same process, and damaged versions of it
     for cc in iu.collision_cases(rng, 40 if tier == 'quick' else 1000):
         try:
